@@ -2697,7 +2697,8 @@ func (b *IPRouteBody) serialize(version uint8, software Software) ([]byte, error
 	case 5:
 		bufInitSize = 9 // type(1)+instance(2)+flags(4)+message(1)+safi(1)
 	case 6:
-		if software.name == "frr" && software.version < 7.4 { // frr6, 7, 7.2, 7.3
+		// the message flags grew from 1 to 4 octets in frr7.5 (see below, and decodeFromBytes)
+		if software.name == "frr" && software.version < 7.5 { // frr6, 7, 7.2, 7.3, 7.4
 			bufInitSize = 9 // type(1)+instance(2)+flags(4)+message(1)+safi(1)
 		}
 	}
